@@ -280,9 +280,9 @@ func Load(ctx context.Context, wd string, env []string, tags string, patterns []
 				continue
 			}
 			pset := item.(*ProviderSet)
-			// pset.Name may not equal name, since it could be an alias to
-			// another provider set.
-			id := ProviderSetID{ImportPath: pset.PkgPath, VarName: name}
+			// pset.VarName and pset.PkgPath may differ from this variable's, since it
+			// could be an alias to another provider set.
+			id := ProviderSetID{ImportPath: pkg.PkgPath, VarName: name}
 			info.Sets[id] = pset
 		}
 		for _, f := range pkg.Syntax {
